@@ -133,7 +133,11 @@ def dump_trace(task):
             warnings.simplefilter("ignore")
             if spec[0] == "make":
                 rng = random.Random(spec[2])
-                objs = [O.make(spec[1] if op != "write_input" else "xyz", rng, spec[3]) for _ in range(1 if op != "dump_many" else 3)]
+                objs = [O.make(spec[1] if op != "write_input" else "xyz", rng, spec[3] if spec[3] != "dictkw" else "plain")
+                        for _ in range(1 if op != "dump_many" else 3)]
+                if spec[3] == "dictkw":
+                    objs[0].extra = {"maxiter": 5, "nested": {"a": [1, 2]}}
+                    objs[0].atcharges = {"mulliken": np.zeros(objs[0].natom)}
             else:
                 objs = [api.load_one(spec[1], fmt=spec[2])]
             for o in objs:
@@ -153,6 +157,10 @@ def dump_trace(task):
                         ret = api.dump_one(objs[0], path, fmt=fmt, allow_changes=allow)
                     elif op == "dump_many":
                         api.dump_many(objs, path, fmt=fmt, allow_changes=allow)
+                    elif spec[3] == "dictkw":
+                        # keyword arguments that are dictionaries named like dictionary attributes, used by a custom template
+                        api.write_input(objs[0], path, fmt, template="{title}\n{extra[maxiter]} {atcharges[mulliken]}\n{geometry}\n",
+                                        extra={"maxiter": 99}, atcharges={"mulliken": "m"}, atffparams={"k": 1})
                     else:
                         api.write_input(objs[0], path, fmt)
                 except Exception as e:  # noqa: BLE001
@@ -215,6 +223,7 @@ def check(run: Run):
     for prog in ("gaussian", "orca"):
         for rep in range(run.pick(3, 10)):
             tasks.append(("make(xyz,plain)", prog, "write_input", "ok", False, 1 + rep % 3, ("make", "xyz", rng.randint(0, 10**9), "plain")))
+            tasks.append(("make(xyz,dictkw)", prog, "write_input", "ok", False, 1 + rep % 3, ("make", "xyz", rng.randint(0, 10**9), "dictkw")))
     files = [(p, f) for p, f, _ in corpus() if os.path.getsize(p) < 400000]
     if not run.thorough():
         by = {}
